@@ -60,6 +60,8 @@ let normal__brk: UVec;
         ensures
             split_ok(children_left@, children_right@, items, normal__brk.vv(), reader.leafs),
             tmp_nodes.tv() == t0, tmp_nodes.allocated() == a0, tmp_nodes.rm() == old(tmp_nodes).rm(), tmp_nodes.taken() == old(tmp_nodes).taken(),
+        // C20 (bounded time): every pass that does not leave the loop uses up one of the three attempts
+        decreases remaining_attempts,
 //@loop 1
         invariant
             iter__0.seq@ == bm_seq(items), 0 <= iter__0.pos@ <= iter__0.seq@.len(), tmp_nodes.rm() == old(tmp_nodes).rm(), tmp_nodes.taken() == old(tmp_nodes).taken(),
